@@ -7,6 +7,8 @@ import CLModel.Proofs.C12Android
 import CLModel.Proofs.C12Bound
 import CLModel.Proofs.C12Term
 import CLModel.Proofs.C11Witness
+import CLModel.Proofs.C12RSep
+import CLModel.Proofs.C12RExample
 namespace C12
 open Rx PM
 
@@ -320,5 +322,120 @@ theorem android_legacy_bplus_roundtrip :
 theorem android_limits_witness :
     androidRoundTrip [99, 105, 110] = false ∧
     androidRoundTrip [101, 110, 45, 85, 83, 45, 120, 45, 102, 111, 111] = false := by decide +kernel
+
+/-! ### a pattern WITH wildcards and the path obtained by filling them -/
+
+/-- **expand -> match with wildcards** (completeness *and* uniqueness of the backtracking matcher).
+    Take a matcher of the restricted class `C11R.InClassN`: its top-level nodes are literals, `*`, `**/` (or `**`
+    at the very end) and first occurrences of variables that are fully bound, i.e. `Variable.expand(env,
+    raise_missing=True)` returns a text — the value may itself use other variables, as `{l}` =
+    "{l10n_base}/{locale}/" does (environment of the `Matcher` shape `EnvOK`: parsed unrooted patterns, no variable
+    twice inside one value); any root.  Fill the wildcard numbered `n` with `vs n` (`C11R.fillN`: literals stay, a
+    variable contributes its expansion) and assume the filling is well separated (`C11R.WellSepN` = `C11R.PSep` of
+    the filled items):
+      * the value of a `*` contains no `/`, and the literal (or variable expansion) that follows the star does not
+        occur again at a later position of the `/`-free run after the value (`C11R.NoLaterHit`; sufficient: its
+        first character does not occur again before the next `/` — `C11R.noLaterHit_of_first`, e.g. it starts
+        with `/` — `C11R.noLaterHit_slash`; nothing is asked of a star that ends the pattern — `C11R.noLaterHit_nil`);
+      * the value of a `**/` is empty (no directory, reported as `None`) or a non-empty newline-free text followed
+        by `/`, and no further double star comes after it (any literals, stars and variables may: the rest of the
+        pattern matches only texts with its own number of `/`, `C11R.run_toks_slash_fail`);
+      * the value of a final `**` is any newline-free text (empty = `None`).
+    If moreover `re.compile` accepts the pattern (distinct group names, F12; `names` = its group names), the pattern
+    does not use `{android_locale}`, and the root decision succeeds (F11) — all of this is the bundle
+    `C11R.Fillable vs m names rt` — then `match` on `root + filled path` returns a
+    dictionary whose keys are the group names and which maps `s<n>` to `vs n` for every `*`, to `vs n` (`None` if
+    empty) for every `**`, and every top-level variable to its expansion.
+    The greedy `[^/]*` first takes the longest run, every longer candidate is refuted by the literal that follows,
+    the intended one succeeds (`C11R.run_toks`); a variable's nested groups run like a literal text
+    (`C11R.litlike_glok`).
+    Full statement (not proved, hence `_partial`): the same with repeated variables (back-references),
+    `{android_locale}`, and variables left unbound (captured from the path).  The separator hypotheses for `*`,
+    the value shapes and "only one double star with directories" are forced (`star_separator_witness`,
+    `wildcard_value_witness`, `two_starstar_match_witness`). -/
+theorem expand_match_star_partial {m : Matcher} {vs : Nat → Text} {names : List Text} {rt : Text}
+    (h : C11R.Fillable vs m names rt) :
+    ∃ d, m.match (rt ++ C11R.fillN vs m.env m.pattern.nodes) = .ok (some d) ∧ d.map (·.1) = names ∧
+      (∀ n, Node.star n ∈ m.pattern.nodes → d.lookup (sname n) = some (some (vs n))) ∧
+      (∀ n sfx, Node.starstar n sfx ∈ m.pattern.nodes →
+        d.lookup (sname n) = some (if vs n = [] then none else some (vs n))) ∧
+      (∀ name t, Node.var name false ∈ m.pattern.nodes →
+        expandNode (expandVal (fuelFor m.env)) (.var name false) m.env true = .ok t →
+        d.lookup name = some (some t)) := by
+  obtain ⟨re, hre⟩ := h.compiles
+  obtain ⟨g, hm, hg⟩ := C11R.match_fillN h.env h.cls hre h.noAndroidGroup h.root h.sep
+  refine ⟨_, hm, by simp [List.map_map, Function.comp_def], ?_, ?_, ?_⟩
+  · intro n hn
+    obtain ⟨h1, h2⟩ := hg _ hn (sname n) (by simp [C11R.nameOfN])
+    rw [lookup_map_mem (fun nm => g nm) (sname n) names h1, h2]; rfl
+  · intro n sfx hn
+    obtain ⟨h1, h2⟩ := hg _ hn (sname n) (by simp [C11R.nameOfN])
+    rw [lookup_map_mem (fun nm => g nm) (sname n) names h1, h2]; rfl
+  · intro name t hn ht
+    obtain ⟨h1, h2⟩ := hg _ hn name (by simp [C11R.nameOfN])
+    rw [lookup_map_mem (fun nm => g nm) name names h1, h2]
+    simp only [C11R.valOf, C11R.varText, ht]
+
+/-- The filled path *is* the expansion of the pattern once the wildcards are bound: whatever dictionary `match`
+    returned for it, `Pattern.expand` in the environment "those groups, then the matcher's own environment" gives
+    back `root + filled path`.  So `expand_match_star_partial` reads: a pattern whose variables and wildcards are
+    all bound expands to a path that the same matcher matches, returning the bound values.
+    (`C11R.Expandable`: the environment is a dict — distinct keys — none named like a wildcard group, values
+    without `{android_locale}`.) -/
+theorem filled_path_is_expansion_partial {m : Matcher} {vs : Nat → Text} {names : List Text} {rt : Text}
+    {d : GroupDict} (h : C11R.Fillable vs m names rt) (he : C11R.Expandable m)
+    (hd : m.match (rt ++ C11R.fillN vs m.env m.pattern.nodes) = .ok (some d)) :
+    expandTop m.pattern (subEnv d m.env) = .ok (rt ++ C11R.fillN vs m.env m.pattern.nodes) := by
+  obtain ⟨re, hre⟩ := h.compiles
+  have hs := C11R.sub_fillN h.env h.cls hre h.noAndroidGroup h.root h.sep h.cls (h.goodEnv he) h.root he.keys
+    he.noWildKey (fun _ h => h)
+  rw [PM.sub_of_match hd] at hs
+  cases hx : expandTop m.pattern (subEnv d m.env) with
+  | error e => simp [hx, Except.map] at hs
+  | ok t => simpa [hx, Except.map] using hs
+
+/-- non-vacuity of the wildcard theorems: `C11R.wildMatcher` is what
+    `Matcher("{l}browser/**/*.ftl", {"l": "{l10n_base}/{locale}/", "l10n_base": "/l10n", "locale": "de"})` builds
+    (`C11R.wildMatcher_is`); with the values `**/` = "a/b/", `*` = "c.d" (a dot inside the star value: the engine has
+    to backtrack) all hypotheses hold (`C11R.wildMatcher_ok`), the filled path is "/l10n/de/browser/a/b/c.d.ftl"
+    (`C11R.wild_fill`), and evaluating the model gives the dictionary the theorem describes. -/
+example : matcherOf "{l}browser/**/*.ftl" [("l", "{l10n_base}/{locale}/"), ("l10n_base", "/l10n"), ("locale", "de")]
+      none = .ok C11R.wildMatcher ∧
+    ((∃ names, C11R.Fillable C11R.wildVals C11R.wildMatcher names []) ∧ C11R.Expandable C11R.wildMatcher) ∧
+    [] ++ C11R.fillN C11R.wildVals C11R.wildMatcher.env C11R.wildMatcher.pattern.nodes =
+      T "/l10n/de/browser/a/b/c.d.ftl" ∧
+    C11R.wildMatcher.match (T "/l10n/de/browser/a/b/c.d.ftl") =
+      .ok (some [(T "l", some (T "/l10n/de/")), (T "l10n_base", some (T "/l10n")), (localeName, some (T "de")),
+                 (T "s1", some (T "a/b/")), (T "s2", some (T "c.d"))]) :=
+  ⟨C11R.wildMatcher_is, C11R.wildMatcher_ok, C11R.wild_fill, matchIs_spec (by decide +kernel)⟩
+
+/-- The separator hypothesis for `*` is forced: "a.b.c" is the pattern "*.*" filled with ("a", "b.c"), where the
+    literal "." occurs again later in the run; `match` returns the other decomposition. -/
+theorem star_separator_witness :
+    matchOutcome "*.*" [] none "a.b.c" = .groups [(T "s1", some (T "a.b")), (T "s2", some (T "c"))] := by
+  decide +kernel
+
+/-- Forced value shapes: a `/` in a star value, a `**/` value that is not whole directories ("" before the
+    `/`, no trailing `/`) or contains a newline, and a newline in a final `**` are not matched at all. -/
+theorem wildcard_value_witness :
+    matchOutcome "*.x" [] none "a/b.x" = .noMatch ∧
+    matchOutcome "a/**/x" [] none "a//x" = .noMatch ∧
+    matchOutcome "a/**/x" [] none "a/bx" = .noMatch ∧
+    matchOutcome "a/**/x" [] none "a/b\nc/x" = .noMatch ∧
+    matchOutcome "a/**" [] none "a/b\nc" = .noMatch := by decide +kernel
+
+/-- "One double star" is forced: "a/x/x/x/q.f" is "a/**/x/**/*.f" filled with (nothing, "x/", "q") and also with
+    ("x/", nothing, "q") ...; `match` reports the greedy decomposition ("x/x/", nothing, "q"). -/
+theorem two_starstar_match_witness :
+    matchOutcome "a/**/x/**/*.f" [] none "a/x/x/x/q.f" =
+      .groups [(T "s1", some (T "x/x/")), (T "s2", none), (T "s3", some (T "q"))] := by decide +kernel
+
+/-- a `**/` followed by a further directory: "a/**/x/*.f" filled with ("y/x/", "q") -/
+example : matchOutcome "a/**/x/*.f" [] none "a/y/x/x/q.f" =
+    .groups [(T "s1", some (T "y/x/")), (T "s2", some (T "q"))] := by decide +kernel
+
+/-- a final `**` takes any rest, or nothing -/
+example : matchOutcome "a/**" [] none "a/b/c" = .groups [(T "s1", some (T "b/c"))] ∧
+    matchOutcome "a/**" [] none "a/" = .groups [(T "s1", none)] := by decide +kernel
 
 end C12
